@@ -776,3 +776,115 @@ pub fn e2_get_exact<S: Src, const K1: usize, const KQ: usize>(s: &mut S) {
     std::mem::forget(got);
     std::mem::forget(store);
 }
+
+// ---------------------------------------------------------------------------------------------
+// C02/C08 (E1): `parents()` / `get_exact()` over a harness-defined two-row records table
+// ---------------------------------------------------------------------------------------------
+// `parents` and `get_exact` are generic over `impl ReadableTable`; under Kani (where `redb` is the
+// model crate and its traits are not sealed) the table below stands in for the records table: two
+// typed rows, point lookups only.  Value decoding (`AccessGuard::value`, `into_entry`) is the real
+// code.  Natively (real redb, sealed traits) this part does not exist; counterexamples are
+// confirmed by a public-API witness instead.
+#[cfg(kani)]
+pub mod fake_records {
+    use super::*;
+    use redb::{AccessGuard, Range, ReadableTable, ReadableTableMetadata};
+    use super::super::tables::{RecordsId, RecordsValue};
+
+    #[derive(Clone, Copy)]
+    pub struct FRow {
+        pub author: [u8; 32],
+        pub key: &'static [u8],
+        pub ts: u64,
+        pub len: u64,
+        pub hash: [u8; 32],
+    }
+    pub struct FakeRecords {
+        pub ns: [u8; 32],
+        pub rows: [Option<FRow>; 2],
+    }
+    impl ReadableTableMetadata for FakeRecords {
+        fn len(&self) -> redb::Result<u64> {
+            Ok(self.rows.iter().flatten().count() as u64)
+        }
+    }
+    impl ReadableTable<RecordsId<'static>, RecordsValue<'static>> for FakeRecords {
+        fn get<'a>(&self, key: impl std::borrow::Borrow<RecordsId<'a>>) -> redb::Result<Option<AccessGuard<'_, RecordsValue<'static>>>> {
+            let (ns, author, k) = *key.borrow();
+            let mut i = 0;
+            while i < 2 {
+                if let Some(r) = &self.rows[i] {
+                    if *ns == self.ns && *author == r.author && k == r.key {
+                        let v: RecordsValue = (r.ts, &[1u8; 64], &[2u8; 64], r.len, &r.hash);
+                        return Ok(Some(AccessGuard::verif_from_value(v)));
+                    }
+                }
+                i += 1;
+            }
+            Ok(None)
+        }
+        fn range<'a, KR>(&self, _range: impl RangeBounds<KR> + 'a) -> redb::Result<Range<'_, RecordsId<'static>, RecordsValue<'static>>>
+        where
+            KR: std::borrow::Borrow<RecordsId<'a>> + 'a,
+        {
+            Ok(Range::verif_empty())
+        }
+        fn first(&self) -> redb::Result<Option<(AccessGuard<'_, RecordsId<'static>>, AccessGuard<'_, RecordsValue<'static>>)>> {
+            Ok(None)
+        }
+        fn last(&self) -> redb::Result<Option<(AccessGuard<'_, RecordsId<'static>>, AccessGuard<'_, RecordsValue<'static>>)>> {
+            Ok(None)
+        }
+    }
+}
+
+/// C02/C08: `parents(table, ns, author, key)` — what `put` consults to decide admission — returns
+/// every same-author entry stored at `key` or at a prefix of it, **the empty key and deletion
+/// markers included**, shortest key first; other authors' entries are not returned.
+/// Rows: R1 = (author A, key P1), R2 = (author A or B, key P2); looked-up key "ab".  P1/P2 concrete
+/// per instance (MENU indices; 0 = "", 1 = "a", 5 = "ab", 4 = "b"); timestamps, deletion-marker
+/// flags and R2's author symbolic.
+#[cfg(kani)]
+pub fn parents_law<S: Src, const P1: usize, const P2: usize>(s: &mut S) {
+    use fake_records::*;
+    let (t1, t2) = (s.u64(), s.u64());
+    let (d1, d2) = (s.bool(), s.bool());
+    let r2_by_b = s.bool();
+    let mk = |author: [u8; 32], key: &'static [u8], ts: u64, tomb: bool, hb: u8| -> FRow {
+        let mut h = [0x33u8; 32];
+        h[0] = hb;
+        FRow { author, key, ts, len: if tomb { 0 } else { 7 }, hash: if tomb { *Hash::EMPTY.as_bytes() } else { h } }
+    };
+    let r1 = mk(AUTHOR_A, MENU[P1], t1, d1, 1);
+    let r2 = mk(if r2_by_b { AUTHOR_B } else { AUTHOR_A }, MENU[P2], t2, d2, 2);
+    s.assume(P1 != P2 || r2_by_b);
+    let table = FakeRecords { ns: NS, rows: [Some(r1), Some(r2)] };
+    let res = super::parents(&table, NamespaceId::from(&NS), AuthorId::from(&AUTHOR_A), b"ab".to_vec());
+    // expected: rows of author A whose key is a prefix of "ab", shortest first
+    let want1 = b"ab".starts_with(MENU[P1]);
+    let want2 = !r2_by_b && b"ab".starts_with(MENU[P2]);
+    let mut got1 = false;
+    let mut got2 = false;
+    let mut n = 0;
+    let mut last_len = 0usize;
+    let mut ordered = true;
+    for e in res.iter() {
+        let e = e.as_ref().unwrap();
+        n += 1;
+        if e.key() == MENU[P1] && e.timestamp() == t1 {
+            got1 = true;
+        }
+        if e.key() == MENU[P2] && e.timestamp() == t2 && e.author().to_bytes() != AUTHOR_B {
+            got2 = true;
+        }
+        ordered &= e.key().len() >= last_len;
+        last_len = e.key().len();
+    }
+    cv!(s, want1 && d1, "parents_law: a deletion marker at a prefix");
+    cv!(s, want1 && want2, "parents_law: two parents");
+    ck!(s, got1 == want1, "the entries consulted for admission include every same-author entry at the key or at a prefix of it, the empty key and deletion markers included (row 1)");
+    ck!(s, got2 == want2, "the entries consulted for admission include every same-author entry at the key or at a prefix of it, the empty key and deletion markers included (row 2)");
+    ck!(s, n == want1 as usize + want2 as usize, "nothing else is returned (other authors, non-prefix keys)");
+    ck!(s, ordered, "parents are returned shortest key first");
+    std::mem::forget(res);
+}
